@@ -46,6 +46,9 @@ type c12arg struct {
 var c12args = []c12arg{
 	{"1", "int", "i1"}, {`"a"`, "str", "s61"}, {"nil", "nil", ""}, {"true", "bool", "b1"}, {"{k: 1}", "map", "{6b=i1}"}, {"[1]", "slicei", "[i1]"},
 	{"t0", "T0", "T0(s7a65726f)"}, {"pt0", "pT0", "&T0(s7074)"}, {"fl", "float", "f1.5"}, {"h", "html", "h3c693e"}, {"n + 1", "int", "i4"},
+	// a typed nil pointer is a value like any other: it arrives unchanged (not as the untyped nil,
+	// not as the zero value of another parameter type)
+	{"np0", "pT0", "&n"},
 }
 
 func c12assignable(dyn, param string) bool {
@@ -125,7 +128,7 @@ func init() {
 		renderPrelude()
 		e.perShard = 60
 		e.rep.Rule = "19 recording helpers (0-3 fixed parameters of several types, +/- trailing options map, +/- helper context by struct or interface type, +/- variadic tail of interface{} or string) x every call shape of 0..3 (thorough: 0..4) arguments drawn from 11 argument kinds, +/- a block; expectation = the declarative binding (positional, nil -> zero value, omitted trailing map/helper context supplied, variadic tail collects the rest; too many / not assignable / more than two missing => an error naming the call and NO invocation); observed through the helpers' own log; plus evaluation-order probes with counting arguments, arguments that are themselves helper calls, and sequences in which a helper writes into its auto-supplied options map before other calls omit theirs; distinct by call"
-		binds := []Bind{{"t0", vT0("zero")}, {"pt0", vPtr(vT0("pt"))}, {"fl", vFloat("1.5")}, {"h", vHTML("<i>")}, {"n", vInt(3)},
+		binds := []Bind{{"t0", vT0("zero")}, {"pt0", vPtr(vT0("pt"))}, {"np0", VD{K: "nilptr", Tn: "T0"}}, {"fl", vFloat("1.5")}, {"h", vHTML("<i>")}, {"n", vInt(3)},
 			{"c1", vGo(101, vInt(1), vStr("x"))}, {"c2", vGo(101, vInt(2), vInt(5))}, {"c3", vGo(101, vInt(3), vBool(true))}}
 		for sg := 0; sg <= 18; sg++ {
 			binds = append(binds, Bind{fmt.Sprintf("rec%d", sg), vGo(106, vInt(sg), vStr(fmt.Sprintf("r%d", sg)))})
